@@ -46,6 +46,14 @@ CHECKS = [
          text="The code's head/tail/mod/len arithmetic is modelled literally next to a ghost queue; TLC proves the refinement for every call sequence of the bounded instance and every initial capacity; the real RingBuffer[int] is driven along an edge cover of each graph (every reachable geometry x every call) and its API results are compared with the abstract queue's.",
          note="sequences with <= 6 (quick) / 9 (thorough) pushes, PopN(1..3/4), capacities 1..4 (quick) / up to 8 (thorough); element type int",
          ref="4/C14"),
+    dict(id="C15", engine="wire-table", technique="TLC exhaustive on Wire.tla (writer loop + reader loop) over all bounded batches; every case exported by TLC with its expected deliveries and run through the real writer, vtproto marshal/unmarshal, reader and SendLocal (B-table)",
+         text="Wire.tla models streamWriter.Invoke (type / sender / target tables, per-message indices, serialise failure) and streamReader.Receive one loop iteration per action; TLC checks Decode(Encode(batch)) = the serialisable elements in order for every batch of the bounded space and exports each batch with the expected delivery list; each is executed on the real code and only API-visible results (order, target address+id, type, payload, sender, no panic) are compared. Regression configs with each repair switched off must fail in TLC.",
+         note="batches of length <= 2 (quick) / <= 4 (thorough) over 3 targets, 4 senders (nil, plain, split-collision pair), 2 types, 2 payloads, 2 kinds of unserialisable payload; in-memory stream instead of dRPC",
+         ref="4/C15, 2.2 B-table"),
+    dict(id="C16", engine="wire-table", technique="TLC exhaustive on Wire.tla (hostile mode: arbitrary envelope values) + B-table replay of every envelope through real MarshalVT/UnmarshalVT and streamReader.Receive",
+         text="Every envelope of the bounded value space (tables of size 0..2, every index in {-2,-1,0,1,2,MaxInt32}, unknown type names, undecodable payloads, 1..2 messages) is decoded by the model and by the real reader; the real reader must not panic, must deliver exactly the prefix of messages whose own indices are valid (to Targets[ti] with TypeNames[tni]) and must end the stream with an error exactly when the model does.",
+         note="quantifies over Envelope values, not raw byte strings (robustness of the generated UnmarshalVT against arbitrary bytes is not claimed); the dRPC server is replaced by an in-memory stream, so 'the node exits' is observed as a panic escaping Receive",
+         ref="4/C16"),
 ]
 
 NOT_YET = {
@@ -86,6 +94,8 @@ def main():
              "kind_free_text": "TLC state graph of Inbox.tla replayed edge by edge on the real Inbox through gate shims (B-graph)"},
             {"name": "actor-scenario", "path": "harness/cmd/actorscen", "serves_properties": ["C04", "C05", "C06", "C07", "C08", "C13"],
              "kind_free_text": "TLC behaviours of Actor.tla replayed on the real engine with gated deliveries; histories validated by TLC against ActorProps.tla (B-scenario)"},
+            {"name": "wire-table", "path": "harness/cmd/wiretable", "serves_properties": ["C15", "C16"],
+             "kind_free_text": "cases enumerated by TLC from Wire.tla executed on the real stream writer / reader (B-table)"},
             {"name": "ring-table", "path": "harness/cmd/ringtable", "serves_properties": ["C14"],
              "kind_free_text": "TLC state graph of RingBuffer.tla driven on the real RingBuffer, API results compared (B-table)"},
         ],
